@@ -5,18 +5,22 @@ import tokenize
 from lib import coq_term_str as S, coq_list as L, coq_Z as Z, coq_nat as N
 
 THEOREMS = ['C18_newline_rule', 'C18_bracket_silent', 'C18_stream_invariant', 'C18_balanced',
-            'C18_reset', 'C18_open_levels', 'C18_newline_is_line_step', 'C18_example']
-GEN_DEPS = ['IndenterHoles']
+            'C18_reset', 'C18_open_levels', 'C18_newline_is_line_step', 'C18_example',
+            'C18_dedent_error_iff', 'C18_assert_iff_unmatched', 'C18_positions_forget', 'C18_indent_tokens_positions',
+            'C18_no_zero_position_dedent', 'C18_example_positions']
+GEN_DEPS = ['IndenterHoles', 'IndenterPos']
 RULE = ('random token streams (indent widths from spaces/tabs, blank lines, nested and unbalanced brackets, dedents to '
         'non-levels, NL tokens lacking a newline) in sequences of 1-4 streams on ONE Indenter object (earlier streams '
         'may fail or be abandoned half-way); non-trivial = distinct case whose output contains >= 1 INDENT and >= 1 DEDENT')
 TRUSTED_BASE = ['Indenter control skeleton pinned by translator templates (IND_HANDLE_NL/IND_PROCESS_/IND_PROCESS); '
                 'conditions, increments and constants regenerated',
-                'Token.new_borrow_pos position copying is not modelled (types and values are)']
+                'Token.new_borrow_pos / Token._future_new pinned by templates (translator/gen_indpos.py); a position is one abstract '
+                'value standing for the six fields (the harness gives every input token six equal numbers and requires six equal '
+                'numbers back)']
 ASSUMPTIONS = ['token streams are finite lists; NL tokens are those whose type equals NL_type',
                'CPython tokenize comparison validates the reference reading only for space-only or tab-only indentation']
 
-IMPORTS = 'From LV Require Import Base.Prelude Sys.IndenterBase Sys.Indenter Sys.IndenterCheck.'
+IMPORTS = 'From LV Require Import Base.Prelude Sys.IndenterBase Sys.Indenter Sys.IndenterCheck Sys.IndenterPos.'
 STATUS = {'Done': 0, 'DedentError': 1, 'AssertionError': 2, 'IndexError': 3}
 
 
@@ -85,14 +89,27 @@ def gen_stream(rng, tab_len, wild):
     return toks
 
 
+LAST_POSITIONS = []
+
+
 def run_impl(ind, toks, abandon_after=None):
     from lark.lexer import Token
     out = []
     status = 'Done'
-    gen = ind.process(iter([Token(t, v) for t, v in toks]))
+    # six distinct numbers per input token: a copied field that lands in another field shows
+    gen = ind.process(iter([Token(t, v, 10 * k + 11, 10 * k + 12, 10 * k + 13, 10 * k + 14, 10 * k + 15, 10 * k + 16)
+                            for k, (t, v) in enumerate(toks)]))
+    LAST_POSITIONS[:] = []
     try:
         for i, t in enumerate(gen):
             out.append((str(t.type), str(t)))
+            six = [t.start_pos, t.line, t.column, t.end_line, t.end_column, t.end_pos]
+            if six == [0] * 6:
+                LAST_POSITIONS.append(0)
+            elif all(isinstance(x, int) for x in six) and six[0] % 10 == 1 and six == [six[0] + j for j in range(6)]:
+                LAST_POSITIONS.append(six[0] // 10)
+            else:
+                LAST_POSITIONS.append(-1)
             if abandon_after is not None and i + 1 >= abandon_after:
                 status = 'Abandoned'
                 break
@@ -262,6 +279,7 @@ def correspond(ctx):
     rng = ctx.rng
     ncases = ctx.scale(600, 6000) * (3 if ctx.widen else 1)
     cases, meta = [], []
+    pos_cases, pos_meta = [], []
     for ci in range(ncases):
         tab_len = rng.choice([8, 8, 4, 1, 2])
         ind = make_indenter(tab_len)
@@ -280,6 +298,15 @@ def correspond(ctx):
                               'Indenter raised %s' % status, key='exc:%s' % status)
                 break
             obs.append((toks, out, status, paren, stack))
+            pos = list(LAST_POSITIONS)
+            if -1 in pos:
+                ctx.violation('positions-oracle', {'tokens': toks, 'tab_len': tab_len, 'output': out, 'positions': pos}, True,
+                              'an emitted token does not carry the six position fields of one input token')
+            if len(pos_cases) < ctx.scale(450, 6000) or ctx.widen:
+              pos_cases.append('(%s, %s, %s)' % ('(mkCfg "NL" ["LP"; "LB"] ["RP"; "RB"] "IN" "DE" %s)' % Z(tab_len),
+                                               L(['(%s, %s)' % (coq_tok(t), N(k + 1)) for k, t in enumerate(toks)]),
+                                               L([N(max(p, 0)) for p in pos])))
+              pos_meta.append((tab_len, toks, out, pos))
             msg = property_oracle(toks, out, status, tab_len)
             nin = sum(1 for t in out if t[0] == 'IN')
             nde = sum(1 for t in out if t[0] == 'DE')
@@ -326,6 +353,33 @@ def correspond(ctx):
                                'streams': [{'tokens': o[0], 'impl_output': o[1], 'impl_status': o[2],
                                             'impl_state': [o[3], o[4]]} for o in obs]}, False,
                               'model and implementation disagree; the property oracle holds on this case')
+    # borrowed positions: Sys/IndenterPos.process_pos vs the positions of the emitted tokens
+    bad, errs = ctx.coq_bad_indices('c18p', IMPORTS, 'check_pos', pos_cases)
+    for e in errs:
+        ctx.violation('correspondence:coq-eval', {'error': e}, False, e[:300])
+    for i in bad[:5]:
+        tab_len, toks, out, pos = pos_meta[i]
+        # the property's reading: INDENT/DEDENT carry the position of the newline token that caused them, final DEDENTs that of
+        # the last token
+        exp, last_nl = [], 0
+        k = 0
+        for ty, val in out:
+            if ty in ('IN', 'DE') and k >= len(toks):
+                exp.append(len(toks))
+            elif ty in ('IN', 'DE'):
+                exp.append(last_nl)
+            else:
+                while k < len(toks) and tuple(toks[k]) != (ty, val):
+                    k += 1
+                k += 1
+                exp.append(k)
+                if ty == 'NL':
+                    last_nl = k
+        ctx.violation('positions-oracle' if exp != pos else 'correspondence:Sys/IndenterPos.process_pos vs lark',
+                      {'tokens': toks, 'tab_len': tab_len, 'output': out, 'positions': pos, 'expected_positions': exp,
+                       'no_longer_checks': 'positions of emitted tokens'}, exp != pos,
+                      'positions of the emitted tokens %s differ from the model%s' % (pos, '' if exp == pos else
+                                                                                      ' and from the borrowed-position rule %s' % exp))
     # CPython validation of the reference reading
     n_cp = ctx.scale(300, 3000)
     for _ in range(n_cp):
@@ -348,6 +402,10 @@ def replay(ctx, case):
         return norm_err(got) != norm_err(ref)
     if 'tokens' not in w:
         return False
+    if 'expected_positions' in w:
+        run_impl(make_indenter(w.get('tab_len', 8)), [tuple(t) for t in w['tokens']])
+        print('positions', LAST_POSITIONS, 'expected', w['expected_positions'])
+        return list(LAST_POSITIONS) != list(w['expected_positions'])
     ind = make_indenter(w.get('tab_len', 8))
     for h in w.get('history', []):
         run_impl(ind, [tuple(t) for t in h])
